@@ -248,6 +248,18 @@ Print Assumptions C16_src_add_is_model.
 Example C16_src_keys_agree_example : keys_agree empty /\ forall c, wf c -> keys_agree c.
 Proof. split; [reflexivity | exact wf_keys_agree]. Qed.
 
+(** ... and [keys_agree] is kept by every accepted source-level addition, so every sequence of calls (the way [from_dataframe],
+    [from_pytorch], [subset] and every user build a container) computes the model's [add_all]; from the empty object no hypothesis
+    is left. *)
+Theorem C16_src_add_all_is_model :
+  (forall c id arg c', keys_agree c -> src_add gen_types gen_add c id arg = SAdded c' -> keys_agree c')
+  /\ (forall c l, keys_agree c -> src_add_all gen_types gen_add c l = add_all c l)
+  /\ (forall l, src_add_all gen_types gen_add empty l = add_all empty l).
+Proof.
+  split; [exact gen_keys_agree_kept|]. split; [exact gen_add_all_is_model | intros l; apply gen_add_all_is_model; reflexivity].
+Qed.
+Print Assumptions C16_src_add_all_is_model.
+
 (** [C16_add_rejects_partial] over the regenerated program: same four kinds of malformed addition, the input error, and the
     object untouched — without any hypothesis on the container. *)
 Theorem C16_src_add_rejects_partial : forall (c : container) (id : pyid) (arg : pyarg),
@@ -292,7 +304,7 @@ Theorem C16_src_conversions_are_model :
   (forall c, src_to_dataframe gen_df_rows_from gen_col_rule c = to_dataframe c)
   /\ (forall t, src_from_dataframe gen_split_rule t = from_dataframe t)
   /\ (forall rnd c, src_to_pytorch rnd gen_torch_iter c = to_pytorch rnd c)
-  /\ (forall c ids, src_subset gen_subset_rule c ids = subset c ids)
+  /\ (forall c ids, src_subset gen_types gen_add gen_subset_rule c ids = subset c ids)
   /\ (forall p, src_load_format gen_load_dispatch p = load_format p).
 Proof. exact gen_conversions_are_model. Qed.
 Print Assumptions C16_src_conversions_are_model.
